@@ -164,10 +164,15 @@ def embed_case(rng, seed):
     singles = []
     for j in range(n):
         pg = G.ProgGen(random.Random(seed * 31 + j), shuffle=False)
-        steps = []
-        info = pg.economy(steps, 'e%d' % j, codes[j])
-        steps.extend(info['ops'])
-        singles.append({'maxtime': 4, 'steps': steps, 'shape': 'single'})
+        if rng.random() < 0.35:
+            # a federated economy: a country plus regions that rely on the model's default currency
+            p = pg.federated(codes=[codes[j], codes[j] + 'N', codes[j] + 'S'], cid_prefix='e%d_' % j)
+            singles.append({'maxtime': 4, 'steps': p['steps'], 'shape': 'federated'})
+        else:
+            steps = []
+            info = pg.economy(steps, 'e%d' % j, codes[j])
+            steps.extend(info['ops'])
+            singles.append({'maxtime': 4, 'steps': steps, 'shape': 'single'})
     with_ext = rng.random() < 0.5
     pos = rng.randint(0, n)
     joint_steps = []
@@ -177,17 +182,24 @@ def embed_case(rng, seed):
         joint_steps.extend(copy.deepcopy(singles[j]['steps']))
     if with_ext and pos == n:
         joint_steps.append({'kind': 'external', 'id': 'ext'})
-    joint = {'maxtime': 4, 'steps': joint_steps, 'shape': 'joint'}
+    # user operations of all economies come after all declarations (as in every generated program)
+    decl = [st for st in joint_steps if st['kind'] != 'op']
+    ops = [st for st in joint_steps if st['kind'] == 'op']
+    joint = {'maxtime': 4, 'steps': decl + ops, 'shape': 'joint'}
     return singles, joint, codes, with_ext
 
 
 def embed_map(a_single, cc):
-    """stand-alone full name -> name in the joint model (country prefix; market variables that
-    embed a supplier's full code get the prefix there too)."""
+    """stand-alone full name -> name in the joint model.  A single-country economy gains the country
+    prefix (market variables that embed a supplier's full code get it there too); a federated
+    economy already uses prefixed codes, so its names are unchanged."""
     from sfc_models.sector import Market
-    codes = set(s.Code for s in a_single['mod'].GetSectors())
+    mod = a_single['mod']
+    if len(mod.CountryList) > 1:
+        return {s.GetVariableName(v): s.GetVariableName(v) for s in mod.GetSectors() for v in s.EquationBlock.GetEquationList()}
+    codes = set(s.Code for s in mod.GetSectors())
     m = {}
-    for s in a_single['mod'].GetSectors():
+    for s in mod.GetSectors():
         for v in s.EquationBlock.GetEquationList():
             local = v
             if isinstance(s, Market) and v.startswith('SUP_') and v[4:] in codes and v[4:] != s.Code:
@@ -249,10 +261,12 @@ def run(ctx):
         tsj = None
         for j, (a, cc) in enumerate(zip(asg, codes)):
             m = embed_map(a, cc)
-            part = [(v, k) for v, k in aj['system'] if v.startswith(cc + '_')]
+            own = set(m.values())
+            part = [(v, k) for v, k in aj['system'] if v in own or any(v.startswith(c.Code + '_') for c in a['mod'].CountryList)
+                    or v.startswith(cc + '_')]
             e1 = [(v, k) for v, k in a['system'] if '__' in v]
             case = 'rename_equiv_case %s %s %s' % (
-                coq_list(['(%s, %s)' % (coq_string(x), coq_string(y)) for x, y in m.items()]), G.coq_sys(e1), G.coq_sys(part))
+                coq_list(['(%s, %s)' % (coq_string(x), coq_string(y)) for x, y in m.items() if x != y]), G.coq_sys(e1), G.coq_sys(part))
             cases.append(case)
             metas.append({'kind': 'embed', 'single': G.strip_prog(singles[j]), 'joint': G.strip_prog(joint), 'country': cc})
             seen.add(json.dumps([G.strip_prog(singles[j]), G.strip_prog(joint)], sort_keys=True))
